@@ -1324,11 +1324,11 @@ def check_strings(ck, items: list[dict], report) -> None:
             else:
                 report(it, fail)
     try:
-        for i in run_case_files(ck, "parser", parser_rows, parser_case_file, per=500):
+        for i in run_case_files(ck, "parser", parser_rows, parser_case_file, per=500)[:5]:
             text, r = parser_rows[i]
             ck.broken("correspondence:parser", json.dumps({"text": text, "implementation": r,
                                                            "note": "model parse_dim disagrees (tree or accept/reject)"}, default=str))
-        for i in run_case_files(ck, "streval", eval_rows, string_eval_case_file, per=400):
+        for i in run_case_files(ck, "streval", eval_rows, string_eval_case_file, per=400)[:5]:
             text, b, o = eval_rows[i]
             ck.broken("correspondence:string-eval", json.dumps({"text": text, "bindings": b, "implementation": o}))
     except RuntimeError as e:
@@ -1376,7 +1376,7 @@ def check_trees(ck, cases: list[dict], report) -> None:
             ck.sample({"tree": case["tree"], "bindings": case["bindings"], "partial": case["partial"],
                        "text": obs.get("text"), "evaluate": obs.get("full"), "simplify_text": obs.get("simplify_text")})
     try:
-        for i in run_case_files(ck, "trees", rows, tree_case_file, per=150):
+        for i in run_case_files(ck, "trees", rows, tree_case_file, per=150)[:5]:
             case, obs = rows[i]
             ck.broken("correspondence:tree-eval", json.dumps({"case": case, "implementation": obs}, default=str))
     except RuntimeError as e:
@@ -1457,7 +1457,7 @@ def run(ck) -> None:
             small = shrink_tree(ck, v["case"], fails)
             o = observe(small)
             ck.violation({"kind": "tree", "case": small, "failures": oracle(small, o), "text": o.get("text"),
-                          "simplify_text": o.get("simplify_text"), "broken": [b["name"] for b in ck.broken_items]})
+                          "simplify_text": o.get("simplify_text"), "broken": sorted({b["name"] for b in ck.broken_items})})
         else:
             sig = ("string", v["what"])
             if sig in seen:
@@ -1470,7 +1470,7 @@ def run(ck) -> None:
                 v = {"kind": "string", **{k: f2[k] for k in ("text", "bindings", "expected", "observed", "what")}}
             v.pop("toks", None)
             v.pop("names", None)
-            ck.violation(dict(v, broken=[b["name"] for b in ck.broken_items]))
+            ck.violation(dict(v, broken=sorted({b["name"] for b in ck.broken_items})))
     # 4. a broken obligation / correspondence and no failing input yet: search harder
     if ck.broken_items and not ck.violations:
         search(ck)
@@ -1505,7 +1505,7 @@ def search(ck) -> None:
             text = " ".join(t if isinstance(t, str) else str(t[1]) for t in small)
             f2 = string_failure(small, it["names"], it["bindings"], text=text) or f
             ck.violation({"kind": "string", **{k: f2[k] for k in ("text", "bindings", "expected", "observed", "what")},
-                          "broken": [b["name"] for b in ck.broken_items]})
+                          "broken": sorted({b["name"] for b in ck.broken_items})})
             return
     for _ in range(budget_t):
         case = gen_case(rng, True)
@@ -1520,7 +1520,7 @@ def search(ck) -> None:
             small = shrink_tree(ck, case, fails)
             o = observe(small)
             ck.violation({"kind": "tree", "case": small, "failures": oracle(small, o), "text": o.get("text"),
-                          "broken": [b["name"] for b in ck.broken_items]})
+                          "broken": sorted({b["name"] for b in ck.broken_items})})
             return
 
 
